@@ -102,7 +102,18 @@ def check(model, rep):
             if not (isinstance(t, ast.Call) and norm_text(t.func) == 'fsr.makeWrench' and len(t.args) >= 3):
                 strange.append(norm_text(t)[:60])
                 continue
-            pt, mag, uv = (norm_text(x) for x in t.args[:3])
+            class _Given(ast.NodeTransformer):
+                # this case analysis is for a caller-supplied force vector: `X if forces is None else forces` is `forces`
+                def visit_IfExp(s_, n_):
+                    s_.generic_visit(n_)
+                    tt = norm_text(n_.test)
+                    if tt in ('%sisNone' % fp, '%s==None' % fp):
+                        return n_.orelse
+                    if tt in ('%sisnotNone' % fp, '%s!=None' % fp):
+                        return n_.body
+                    return n_
+            import copy as _copy
+            pt, mag, uv = (norm_text(_Given().visit(_copy.deepcopy(x))) for x in t.args[:3])
             if mag == '0':
                 continue                      # the empty starting wrench
             k = None
@@ -206,7 +217,9 @@ def check(model, rep):
         cols = [x for x in ast.walk(e) if isinstance(x, ast.Subscript) and isinstance(x.value, ast.Attribute) and x.value.attr == own]
         return fields == {own} and bool(cols) and all(isinstance(x.slice, ast.Tuple) and len(x.slice.elts) == 2 and norm_text(x.slice.elts[1]) == num_p for x in cols)
     seen = set()
-    for pth in paths_of(gal.node, gal.params):
+    from .common_ops import flat_method
+    gal_flat = flat_method(sp, 'getActuatorLoc')           # private helpers that build the joint points read in place
+    for pth in paths_of(gal_flat.node, gal.params):
         if pth.kind != 'return' or pth.ret_src is None:
             continue
         kinds = [k_ for k_ in want if pth.facts.get("%s=='%s'" % (kind_p, k_)) is True]
